@@ -360,32 +360,8 @@ def r13_5(cx):
             cx.report('R13.5', b, 'mode:' + mode, ok,
                       ('Anchored::%s -> %s' % (mode, 'Ok(special.%s), no error path' % fld if imp != 'dfa::DFA' else 'Err(%s) iff special.%s == DEAD else Ok(it)' % (errname, fld))) if ok else '; '.join(why) or 'no path for this mode')
     # DFA builder: unsupported start id is DEAD; dispatch on start kind
-    b = cx.body('dfa::Builder::finish_build_one_start')
-    stores = {}
-    for blk, si, tt, val, st in b.field_stores():
-        if tt[0] == 'f' and tt[2] in ('start_unanchored_id', 'start_anchored_id'):
-            stores.setdefault(tt[2], []).append((blk, val))
-    gates = bool_gates(b, lambda x: is_call(x, r'Anchored::is_anchored$') and is_var(peel(x[2][0]), 'anchored'))
-    tedges = [e for g in gates for e in g[2]]
-    fedges = [e for g in gates for e in g[3]]
-    for fld, dead_when_anchored in (('start_unanchored_id', True), ('start_anchored_id', False)):
-        ss = stores.get(fld, [])
-        ok = len(ss) == 2 and bool(gates)
-        why = '%d stores' % len(ss)
-        if ok:
-            for blk, val in ss:
-                isdead = is_named_const(val, r'DFA::DEAD$')
-                # a DEAD store must sit on the side where the mode is unsupported
-                on_true = not reachable_without(b, [blk], tedges)
-                on_false = not reachable_without(b, [blk], fedges)
-                if isdead:
-                    good = on_true if dead_when_anchored else on_false
-                else:
-                    good = (on_false if dead_when_anchored else on_true) and bool([s for s in subterms(val) if s[0] == 'f' and s[2] == fld])
-                if not good:
-                    ok = False
-                    why = 'store %s at bb%d is on the wrong side of anchored.is_anchored()' % (tstr(val, 100), blk)
-        cx.report('R13.5', b, 'store:' + fld, ok, ('%s = DEAD exactly when built for the other mode' % fld) if ok else why)
+    from rules.dfabuild import r13_5_one_start
+    r13_5_one_start(cx)
     b = cx.body('dfa::Builder::build_from_noncontiguous')
     want = {'Both': ('finish_build_both_starts', None), 'Unanchored': ('finish_build_one_start', 'No'), 'Anchored': ('finish_build_one_start', 'Yes')}
     for blk, t in b.calls(r'finish_build_(one_start|both_starts)$'):
